@@ -83,6 +83,25 @@ def _covered(n: ast.AST, f: Func, need: Set[str]) -> Tuple[bool, Optional[ast.Tr
 
 
 def _issue_store(ctx, h: ast.ExceptHandler, f: Func, issue_names: Set[str]) -> Optional[ast.Assign]:
+    found = _issue_store_in(h, issue_names)
+    if found is not None:
+        return found
+    # flag idiom: the handler only raises a local flag, and an `if <flag>:` block after the try records the issue
+    flags = [x.targets[0].id for x in h.body if isinstance(x, ast.Assign) and len(x.targets) == 1 and isinstance(x.targets[0], ast.Name) and isinstance(x.value, ast.Constant) and x.value.value is True]
+    if flags and len(flags) == len(h.body):
+        for n in own_nodes(f.node):
+            if isinstance(n, ast.If) and isinstance(n.test, ast.Name) and n.test.id in flags:
+                inits = [a for a in own_nodes(f.node) if isinstance(a, ast.Assign) and any(isinstance(t, ast.Name) and t.id == n.test.id for t in a.targets)]
+                # the flag is False unless the handler ran
+                if all(isinstance(a.value, ast.Constant) and a.value.value in (True, False) for a in inits):
+                    blk = ast.Module(body=n.body, type_ignores=[])
+                    got = _issue_store_in(blk, issue_names)
+                    if got is not None:
+                        return got
+    return None
+
+
+def _issue_store_in(h: ast.AST, issue_names: Set[str]) -> Optional[ast.Assign]:
     for x in ast.walk(h):
         if isinstance(x, ast.Assign) and len(x.targets) == 1 and isinstance(x.targets[0], ast.Subscript):
             k = x.targets[0].slice
